@@ -423,6 +423,8 @@ func applyOp(s stackage.Stack, op string) string {
 			src := BuildStack(x)
 			ok := src.Transfer(s)
 			return b01(ok) + " src{" + obsStack(src) + "}"
+		case "xferself": // the root transferred into itself (generated for capped stacks only: without a capacity it never returns)
+			return b01(s.Transfer(s))
 		case "xfer": // the root transferred into <dest value>
 			x, _ := parseV(t[1:])
 			dest := Build(x)
@@ -535,6 +537,10 @@ func genCapx(r *rand.Rand, id string, tier string) string {
 		case 7:
 			ops = append(ops, fmt.Sprintf("rem %d", r.Intn(k+1)))
 		case 8, 9:
+			if c.Cap != 0 && c.Cap <= 12 && c.Ppf == 0 && c.Opt&fNNest == 0 && r.Intn(5) == 0 {
+				ops = append(ops, "xferself") // source and destination are one instance: still never beyond the capacity
+				break
+			}
 			src := genStackLit(r, Cfg{Kind: kinds(r), Fifo: r.Intn(2) == 0}, r.Intn(k+2), true)
 			ops = append(ops, "xferto "+src.String())
 		case 10:
